@@ -138,9 +138,45 @@ func (c *Ctx) safeExec(lines []string) (outs []string, fails []Failure) {
 	return c.P.Exec(lines)
 }
 
+// PCase is one case of a parallel batch.
+type PCase struct {
+	Lines []string
+	Meta  Meta
+}
+
+// Cases runs a batch of cases with `workers` concurrent executions of Exec (which must be safe for
+// that) and records them in order.
+func (c *Ctx) Cases(batch []PCase, workers int) {
+	type res struct {
+		outs  []string
+		fails []Failure
+	}
+	results := make([]res, len(batch))
+	sem := make(chan struct{}, workers)
+	done := make(chan int, len(batch))
+	for i := range batch {
+		sem <- struct{}{}
+		go func(i int) {
+			defer func() { <-sem; done <- i }()
+			o, f := c.safeExec(batch[i].Lines)
+			results[i] = res{o, f}
+		}(i)
+	}
+	for range batch {
+		<-done
+	}
+	for i, b := range batch {
+		c.record(b.Lines, b.Meta, results[i].outs, results[i].fails)
+	}
+}
+
 // Case runs one case on the real code, records the oracle's verdict and queues the lines for the model.
 func (c *Ctx) Case(lines []string, m Meta) {
 	outs, fails := c.safeExec(lines)
+	c.record(lines, m, outs, fails)
+}
+
+func (c *Ctx) record(lines []string, m Meta, outs []string, fails []Failure) {
 	if len(outs) != len(lines) {
 		panic(fmt.Sprintf("harness bug: %d outputs for %d lines", len(outs), len(lines)))
 	}
